@@ -143,6 +143,8 @@ def run(O, P):
             cls = "call-apply-nonstatic-path"
         elif "optional-call-through-chain" in classes:
             cls = "optional-call-through-chain"
+        elif "bare-call-callee-assigned-in-arguments" in classes:
+            cls = "bare-call-callee-assigned-in-arguments"
         elif any(k == "crossed" for k, _ in (m.get("out_hygiene") or [])):
             cls = "temps-cross-function-boundary"
         elif "sum-operand-omitted" in (m.get("out_shapes") or []):
